@@ -93,6 +93,25 @@ def fmt_path(body, path):
     return ' -> '.join(out[-14:])
 
 
+def effective_owners(ctx, nid, depth=0):
+    """The known function(s) a body acts for: a body of a function that the development-time snapshot does not know
+    (a newly extracted helper) acts for each of its callers (transitively); everything else acts for itself."""
+    from .inline import known_functions
+    root = nid.split('::{')[0]
+    known = known_functions()
+    if not known or root in known or depth > 3 or root.split('::')[0] in ('std', 'core', 'alloc'):
+        return [nid]
+    callers = ctx.facts.callers(root)
+    if not callers:
+        return [nid]
+    out = []
+    for c in callers:
+        for x in effective_owners(ctx, c.body.nid, depth + 1):
+            if x not in out:
+                out.append(x)
+    return out
+
+
 def who_calls(ctx, rule, callee_pat, allowed, floor=1, what=None):
     """K3: every caller of callee_pat is in `allowed` (list of body patterns)."""
     sites = ctx.facts.callers(callee_pat)
@@ -100,8 +119,11 @@ def who_calls(ctx, rule, callee_pat, allowed, floor=1, what=None):
     n = 0
     for s in sites:
         nid = s.body.nid
-        ok = any(path_matches(nid, a) or nid.startswith(a + '::{') or
-                 any(path_matches(nid.split('::{')[0], a) for _ in [0]) for a in allowed)
+        owners = effective_owners(ctx, nid)
+        ok = all(any(path_matches(o, a) or o.startswith(a + '::{') or path_matches(o.split('::{')[0], a) for a in allowed)
+                 for o in owners)
+        if ok and owners != [nid]:
+            nid = owners[0]
         n += 1
         ctx.check(ok, rule, 'caller:%s<-%s' % (callee_pat, nid),
                   '%s is called from allowed body %s' % (callee_pat, nid),
@@ -349,9 +371,9 @@ def k3_field_writers(ctx, rule, adt_pat, allowed, fields=None, floor=1, exclude_
         if f in exclude_fields:
             continue
         n += 1
-        root = b.nid.split('::{')[0]
-        ok = any(path_matches(root, a) for a in allowed)
-        ctx.check(ok, rule, 'writer:%s.%s<-%s' % (adt_pat.split('::')[-1], f, b.nid),
+        owners = [o.split('::{')[0] for o in effective_owners(ctx, b.nid)]
+        ok = all(any(path_matches(root, a) for a in allowed) for root in owners)
+        ctx.check(ok, rule, 'writer:%s.%s<-%s' % (adt_pat.split('::')[-1], f, owners[0] if ok else b.nid),
                   'field %s.%s is written (%s) in allowed body %s' % (adt_pat, f, how, b.nid),
                   'field %s.%s is written (%s) in %s, outside the allowlist %s' % (adt_pat, f, how, b.nid, allowed),
                   loc=site.loc())
@@ -459,11 +481,11 @@ class G:
         if len(hbs) != 1 or hbs[0].nid == body.nid:
             return None
         hb = hbs[0]
-        if len(hb.blocks) > 80:
+        if len(hb.blocks) > 400:
             return None
         h_edges, h_sws = self._edges(hb, depth + 1)
         pass_set = set(h_edges)
-        if not h_sws and len(hb.switches()) > 0:
+        if not h_sws and len(hb.switches()) > 0 and self.call is None:
             # the helper branches, but never on this guard: it cannot stand for it
             return None
         try:
@@ -473,27 +495,47 @@ class G:
         if not paths:
             return None
         by_class = {}
+        rty = hb.rec['locals'][0]['ty']
+        if rty == 'bool':
+            type_classes = [frozenset({'true'}), frozenset({'false'})]
+        elif rty.startswith('std::option::Option<') or rty.startswith('core::option::Option<'):
+            type_classes = [frozenset({'Some', 'pass'}), frozenset({'None', 'fail'})]
+        elif rty.startswith('std::result::Result<') or rty.startswith('core::result::Result<'):
+            type_classes = [frozenset({'Ok', 'pass'}), frozenset({'Err', 'fail'})]
+        else:
+            return None
         for p in paths:
             if p.kind != 'return':
                 continue
             oc_desc = p.outcome or ''
+            blocks = p.blocks
+            passed = any((blocks[i], blocks[i + 1]) in pass_set for i in range(len(blocks) - 1))
             cls = None
             for pref, labs in self._CLASS:
                 if oc_desc.startswith(pref):
                     cls = frozenset(labs)
                     break
-            if cls is None:
-                # the helper returns the guarded expression itself
-                direct = self._direct(oc_desc)
-                if direct is not None:
-                    by_class.setdefault(frozenset(direct), []).append(True)
-                    other = {'true', 'false'} - set(direct)
-                    by_class.setdefault(frozenset(other), []).append(False)
+            if cls is not None:
+                by_class.setdefault(cls, []).append(passed)
+                continue
+            # the helper returns the guarded expression itself (bool), or converts it (`check(..).ok()`)
+            direct = self._direct(oc_desc) if rty == 'bool' else None
+            if direct is not None:
+                by_class.setdefault(frozenset(direct), []).append(True)
+                by_class.setdefault(frozenset({'true', 'false'} - set(direct)), []).append(passed)
+                continue
+            conv = re.match(r'^call:Result::ok\((.*)\)$', oc_desc)
+            if conv and self.call is not None and rty.startswith(('std::option', 'core::option')):
+                pats = self.call if isinstance(self.call, (list, tuple)) else [self.call]
+                names = [pp[3:].rstrip('$').split('::')[-1] if pp.startswith('re:') else pp.split('::')[-1] for pp in pats]
+                inner = conv.group(1)
+                if any(inner.startswith('call:') and nm2 in inner.split('(')[0] for nm2 in names) and (self.labels & {'Ok', 'pass'}):
+                    by_class.setdefault(type_classes[0], []).append(True)      # Some <=> the guarded call was Ok
+                    by_class.setdefault(type_classes[1], []).append(passed)
                     continue
-                return None
-            blocks = p.blocks
-            passed = any((blocks[i], blocks[i + 1]) in pass_set for i in range(len(blocks) - 1))
-            by_class.setdefault(cls, []).append(passed)
+            # value not classified on this path: it may fall into either class
+            for tc in type_classes:
+                by_class.setdefault(tc, []).append(passed)
         good = set()
         for cls, flags in by_class.items():
             if flags and all(flags):
